@@ -122,6 +122,99 @@ def make_input(rng, kind, shape_id, dtype):
     return torch.tensor(r.integers(-8, 9, sh).astype(np.float64)).to(dtype)
 
 
+ISO = {}
+
+
+def iso_job(args):
+    """runs inside harness.iso_worker"""
+    ci, si, dt = args['key']
+    torch.set_default_dtype(torch.float32)
+    name, ctor, kind = pool(None)[ci]
+    dtype = {'float32': torch.float32, 'float64': torch.float64}[dt]
+    mod = ctor()
+    if dtype == torch.float64:
+        mod = mod.double()
+    with torch.no_grad():
+        out = flat_out(mod(make_input(None, kind, si, dtype)))
+    return [None if o is None else (o.numpy(), str(o.dtype)) for o in out]
+
+
+def iso_refs(keys):
+    """references computed in fresh processes, one per (configuration, shape, dtype): nothing that ran before in
+    THIS process can have influenced them"""
+    todo = [k for k in keys if k not in ISO]
+    for k, v in zip(todo, rt.iso_run([{'module': 'harness.props.c15', 'func': 'iso_job', 'args': {'key': list(k)}} for k in todo])):
+        ISO[k] = v
+    return ISO
+
+
+def close_to_iso(out, iso):
+    """same structure, dtypes and values (to 1e-12 relative: bitwise equality across processes is not claimed)"""
+    if isinstance(iso, tuple) and iso and iso[0] == 'error':
+        return True, ''          # the isolated process could not compute it: no verdict from this comparison
+    if len(out) != len(iso):
+        return False, 'count %d vs %d' % (len(out), len(iso))
+    for k, (a, b) in enumerate(zip(out, iso)):
+        if a is None or b is None:
+            if (a is None) != (b is None):
+                return False, 'output %d None-ness' % k
+            continue
+        arr, dname = b
+        if tuple(a.shape) != tuple(arr.shape):
+            return False, 'output %d shape %s vs isolated %s' % (k, tuple(a.shape), tuple(arr.shape))
+        if str(a.dtype) != dname:
+            return False, 'output %d dtype %s vs isolated %s' % (k, a.dtype, dname)
+        x = a.double().numpy(); y = arr.astype(np.float64)
+        sc = max(1.0, float(np.max(np.abs(y))) if y.size else 1.0)
+        tol = (1e-12 if dname == 'torch.float64' else 1e-5) * sc
+        if not (np.abs(x - y) <= tol).all():
+            return False, 'output %d differs from the isolated-process reference by %.3g' % (k, float(np.nanmax(np.abs(x - y))))
+    return True, ''
+
+
+def oracle_contention(ck, n_threads, reps):
+    """all threads run the SAME configuration and shape at the same time on DIFFERENT data: shared scratch space
+    or caches written during a call show up as another thread's values"""
+    rng = ck.rng
+    P = pool(rng)
+    picks = [i for i, p in enumerate(P) if p[0].startswith(('roundtrip', 'DTCWTForward(near_sym_b', 'ScatLayer('))] + rng.sample(range(len(P)), 3 if ck.tier == 'quick' else 8)
+    for ci in picks:
+        name, ctor, kind = P[ci]
+        si = rng.randrange(4); dt = rng.choice([torch.float32, torch.float64])
+        base = make_input(rng, kind, si, dt)
+        xs = [base * (t + 1) + t for t in range(n_threads)]
+        mods = [ctor() for _ in range(n_threads)]
+        shared = rng.random() < 0.5
+        if shared:
+            mods = [mods[0]] * n_threads
+        if dt == torch.float64:
+            for m in set(mods):
+                m.double()
+        with torch.no_grad():
+            want = [flat_out(mods[t](xs[t])) for t in range(n_threads)]
+        bad = []
+        barrier = threading.Barrier(n_threads)
+
+        def work(t):
+            for r in range(reps):
+                barrier.wait()
+                try:
+                    with torch.no_grad():
+                        got = flat_out(mods[t](xs[t]))
+                except Exception as e:
+                    bad.append('%s raises %s under contention' % (name, type(e).__name__)); barrier.abort(); return
+                ok = len(got) == len(want[t]) and all((a is None and b is None) or (a is not None and b is not None and a.shape == b.shape and torch.equal(a, b)) for a, b in zip(got, want[t]))
+                if not ok:
+                    bad.append('%s on %s %s: thread %d, repetition %d: result differs from the same call made alone (%s instance)' % (name, tuple(xs[t].shape), dt, t, r, 'shared' if shared else 'own'))
+        ths = [threading.Thread(target=work, args=(t,)) for t in range(n_threads)]
+        for t in ths: t.start()
+        for t in ths: t.join()
+        if bad:
+            ck.fail(bad[0] + ' [%d threads, %d of %d calls wrong]' % (n_threads, len(bad), n_threads * reps), {'oracle': 'contention', 'config': name, 'threads': n_threads, 'note': 're-run the check with the same VERIF_SEED'})
+        else:
+            ck.oracle_ok(('contention', name, si, str(dt), shared), group='contention', sample={'config': name, 'threads': n_threads, 'calls': n_threads * reps, 'shared_instance': shared})
+
+
 def oracle_history(ck, n_ops, n_threads):
     rng = ck.rng
     P = pool(rng)
@@ -146,6 +239,13 @@ def oracle_history(ck, n_ops, n_threads):
         history.append((ci, si, dt, rng.random() < 0.3))
     for (ci, si, dt, _) in history:
         ref(ci, si, dt)
+    dname = {torch.float32: 'float32', torch.float64: 'float64'}
+    iso_keys = sorted(set((ci, si, dname[dt]) for (ci, si, dt, _) in history))
+    if ck.tier == 'quick':
+        iso_keys = rng.sample(iso_keys, min(len(iso_keys), 32))
+    iso = iso_refs(iso_keys)
+    ck.extra['isolated_process_references'] = {'computed': sum(1 for v in ISO.values() if not (isinstance(v, tuple) and v and v[0] == 'error')),
+                                               'worker_errors': [v[1][-160:] for v in ISO.values() if isinstance(v, tuple) and v and v[0] == 'error'][:3]}
     failures = []
     retained = []           # (description, live output objects, reference): re-checked after the whole history
     lock = threading.Lock()
@@ -179,10 +279,17 @@ def oracle_history(ck, n_ops, n_threads):
                     failures.append(('%s modified its input tensor' % name, (ci, si, str(dt))))
             want = ref(ci, si, dt)
             ok = len(out) == len(want) and all((a is None and b is None) or (a is not None and b is not None and a.shape == b.shape and a.dtype == b.dtype and torch.equal(a, b)) for a, b in zip(out, want))
-            if not ok:
+            ik = (ci, si, dname[dt])
+            if ok and ik in iso:
+                ok2, why2 = close_to_iso(out, iso[ik])
+                if not ok2:
+                    ok = False
+                    with lock:
+                        failures.append(('%s on %s %s: %s (the reference ran alone in a fresh process; this call ran after other calls)' % (name, tuple(x.shape), dt, why2), (ci, si, str(dt))))
+            elif not ok:
                 with lock:
                     failures.append(('%s on %s %s: result differs from the isolated reference call (history/thread dependence)' % (name, tuple(x.shape), dt), (ci, si, str(dt))))
-            else:
+            if ok:
                 with lock:
                     if len(retained) < 40:
                         live = mod(x) if not grad else None      # keep the module's own returned objects alive
@@ -273,8 +380,9 @@ def run(ck):
     ck.extra['module'] = MODULE
     ck.extra['rule'] = ('trace correspondence: random histories of _load_from_file calls (real table names, unknown names, key sets incl. unknown keys) vs the Lean cache state machine: '
                         'result kind and cache membership after every call; oracle: random histories of constructions and calls over a pool of 20 module configurations x shapes x dtypes x autograd '
-                        'on/off, from 1..8 threads released by a barrier: arguments byte-identical afterwards, every output bit-identical to an isolated reference call (integer-valued data, so '
-                        'bitwise equality is sound); distinct by (configuration, shape, dtype, grad, threads)')
+                        'on/off, from 1..8 threads released by a barrier: arguments byte-identical afterwards, every output bit-identical to a reference call on a fresh instance (integer-valued data, so '
+                        'bitwise equality is sound) and equal to 1e-12 to a reference computed ALONE IN A FRESH PROCESS; contention: 4 threads, same configuration and shape, different data, '
+                        'barrier-released repetitions, each result bit-identical to the same call made alone; distinct by (configuration, shape, dtype, grad, threads)')
     if not getattr(ck, 'no_lean', False):
         ck.lean = rt.lean_check(PROP, MODULE, THEOREMS, regen=regen_all)
     st = rt.correspond('cache-trace', cache_cases(ck, 40 if q else 400), {})
@@ -282,6 +390,7 @@ def run(ck):
     try:
         for nt in ([1, 4] if q else [1, 2, 4, 8]):
             rt.guard(ck, oracle_history, ck, 60 if q else 600, nt)
+        rt.guard(ck, oracle_contention, ck, 4, 12 if q else 60)
         rt.guard(ck, oracle_pyramid_inputs, ck)
         rt.guard(ck, oracle_dtype_history, ck)
         if ((ck.lean is not None and not ck.lean.ok) or st.mismatches) and not ck.failures:
